@@ -322,6 +322,9 @@ func main() {
 	// level text forms
 	for l := -128; l <= 127; l++ {
 		lv := zerolog.Level(l)
+		if g := zerolog.New(w).Level(lv).GetLevel(); g != lv {
+			r.Violation("", "getlevel", fmt.Sprintf("Level(%d).GetLevel() = %d", l, g), nil)
+		}
 		got, err := zerolog.ParseLevel(lv.String())
 		b, _ := lv.MarshalText()
 		var back zerolog.Level = 55
@@ -329,6 +332,36 @@ func main() {
 		r.Eval(fmt.Sprint("text", l, lv.String()), true)
 		if err != nil || got != lv || err2 != nil || back != lv {
 			r.Violation("", fmt.Sprint("text/", l), fmt.Sprintf("level %d: String()=%q ParseLevel->(%d,%v); MarshalText=%q UnmarshalText->(%d,%v)", l, lv.String(), got, err, b, back, err2), nil)
+		}
+	}
+	// the text forms must also round-trip when they are customised (upper-case marshal function, renamed values)
+	{
+		oldF, oldInfo, oldWarn := zerolog.LevelFieldMarshalFunc, zerolog.LevelInfoValue, zerolog.LevelWarnValue
+		variants := map[string]func(){
+			"LevelFieldMarshalFunc=upper": func() {
+				zerolog.LevelFieldMarshalFunc = func(l zerolog.Level) string { return strings.ToUpper(l.String()) }
+			},
+			"LevelInfoValue=INFO,LevelWarnValue=Warning": func() { zerolog.LevelInfoValue, zerolog.LevelWarnValue = "INFO", "Warning" },
+			"LevelFieldMarshalFunc=bracketed": func() {
+				zerolog.LevelFieldMarshalFunc = func(l zerolog.Level) string { return "[" + l.String() + "]" }
+			},
+		}
+		for name, apply := range variants {
+			apply()
+			for l := -128; l <= 127; l++ {
+				lv := zerolog.Level(l)
+				if name == "LevelFieldMarshalFunc=bracketed" && (l < -1 || l > 7) {
+					continue // "[12]" is not a number: only the named levels can round-trip through a decorating function
+				}
+				b, _ := lv.MarshalText()
+				var back zerolog.Level = 55
+				err := back.UnmarshalText(b)
+				r.Eval(fmt.Sprint(name, l, string(b)), true)
+				if err != nil || back != lv {
+					r.Violation("", "text-custom/"+name, fmt.Sprintf("%s: level %d: MarshalText=%q UnmarshalText->(%d,%v)", name, l, b, back, err), nil)
+				}
+			}
+			zerolog.LevelFieldMarshalFunc, zerolog.LevelInfoValue, zerolog.LevelWarnValue = oldF, oldInfo, oldWarn
 		}
 	}
 	for _, s := range []string{"TRACE", "Debug", "iNfO", "WARN", "Error", "FATAL", "Panic", "Disabled"} {
